@@ -160,7 +160,7 @@ func scenC04(w *vsim.World, spec *vsim.Spec) {
 						return
 					}
 					if age < ttl && stalledWriter[base] {
-						w.ViolationSig("c04/block-younger-than-ttl-trashed", "writer-stalled-a-whole-ttl-renames-under-trash", "volume %s: %s was trashed at age %s < TTL %s: a PUT of this block that had been in flight for longer than the TTL (stalled between its existence check and its rename) replaced the old copy while Trash() held the flock on it and had already judged it old; Trash() then renamed the fresh copy (last step: %+v)", vs.name, base[:8], age, ttl, last)
+						w.ViolationSig("c04/block-younger-than-ttl-trashed", "request-in-flight-for-a-whole-ttl-on-this-block", "volume %s: %s was trashed at age %s < TTL %s after a PUT, TOUCH or untrash of this block that had been in flight for a whole TTL applied the timestamp it had read back then (or acted through a descriptor or lock it had obtained back then): the file at the path looked a whole TTL old to Trash() although it had just been written or touched (last step: %+v)", vs.name, base[:8], age, ttl, last)
 						return
 					}
 					if age < ttl {
